@@ -6,6 +6,8 @@ R1.2 existence first: in create_file / create_dir / rename every mutation site l
 R1.3 emptiness first: remove() cannot mutate a non-empty directory
 R1.4 publish before delete: rename writes the destination entry before it deletes the source slots
 R1.5 intermediate path components are looked up as directories
+R1.7 no panic site of the directory / directory-entry / time code (reachable from any API root) is left undischarged:
+     a panic is not one of the documented outcomes of a namespace operation
 """
 from analyses import Deps, Must, edge_dominates, label_results, switch_source, nonzero_targets, zero_targets
 from core import vkey
@@ -53,6 +55,8 @@ def variant_edges(fn, call_blk, variant_name, adt_suffix):
 
 
 def run(ctx, rep):
+    from rules import allpanics
+    allpanics.run_scope(ctx, rep, 'C01', 'R1.7', 'in the directory / entry / time code')
     facts = ctx.facts
     gcache = {}
     ws = wstar(facts, gcache)
